@@ -178,6 +178,9 @@ type TimerRec struct {
 	Dur     int64 // nanoseconds (-1: not a constant)
 	Fired   bool
 	Stopped bool
+	Fn      *Closure // time.AfterFunc: run on a goroutine of its own when the timer fires (nothing is delivered on Chan)
+	Parent  string   // logical thread that armed the timer
+	Seq     int      // access sequence number at the time it was armed (what happened before is ordered before the callback)
 }
 
 func (s *State) clone(newID int) *State {
